@@ -60,6 +60,23 @@ def replay(rp):
         bad = prop_value(f, ue, s)
         print('replay format_float(%r, %d) = %r ->' % (f, ue, s), bad or 'property holds')
         return 1 if bad else 0
+    if rp.get('kind') == 'full-report':
+        import c19report
+        txt, m, kind = c19report.run_report(rp['argv'])
+        bads = [b for b in c19report.report_bad(txt, m) if b[0] != 'vm-table-precision'] if txt else []
+        print('replay full report', rp['argv'], '->', bads[:3] or 'property holds')
+        return 1 if bads else 0
+    if rp.get('kind') == 'rerender':
+        import c19report, random
+        txt, m, kind = c19report.run_report(rp['argv'])
+        bad = None
+        for sd in range(20):
+            txt, m, kind = c19report.run_report(rp['argv'])
+            bad = rerender_property(m, random.Random(sd))
+            if bad:
+                break
+        print('replay rerender', rp['argv'], '->', bad or 'property holds')
+        return 1 if bad else 0
     if rp.get('kind') == 'report':
         bad = report_property(rp['argv'])
         print('replay report', rp['argv'], '->', bad or 'property holds')
@@ -123,6 +140,7 @@ def current_block_property(m):
     real and imaginary columns (also for currents far below 1 A: the property covers 1e-30 and up)"""
     txt = m.currents_as_mininec()
     rows = 0
+    numbered = set()
     for l in txt.split('\n'):
         t = l.split()
         if len(t) != 5 or not (t[0].isdigit() or t[0] == 'J'):
@@ -133,6 +151,9 @@ def current_block_property(m):
             continue
         if t[0].isdigit():
             rows += 1
+            numbered.add(int(t[0]) - 1)
+            if not (1 <= int(t[0]) <= len(m.pulses)):
+                return 'CURRENT DATA row for pulse %s, model has %d pulses' % (t[0], len(m.pulses))
             c = m.current[int(t[0]) - 1]
             for name, v, tx in (('real', c.real, t[1]), ('imaginary', c.imag, t[2])):
                 if abs(v) >= 1e-30:
@@ -141,14 +162,71 @@ def current_block_property(m):
                         return 'CURRENT DATA pulse %s %s part: %s' % (t[0], name, b)
         a = math.hypot(re_, im_)
         if a >= 1e-30:
-            if abs(mag - a) > 2e-6 * a:
+            # seven printed digits (six for magnitudes in 0.1 .. 1) of the magnitude plus seven of each part
+            if abs(mag - a) > (6.1e-6 if 0.1 <= mag < 1 else 2e-6) * a:
                 return 'CURRENT DATA row %s: magnitude %r printed for (%r, %r)' % (t[0], mag, re_, im_)
             want = math.degrees(math.atan2(im_, re_))
             if abs(((ph - want + 180) % 360) - 180) > 1e-3:
                 return 'CURRENT DATA row %s: phase %r printed for (%r, %r), i.e. %.5f degrees' % (t[0], ph, re_, im_, want)
-    if rows != len(m.pulses):
-        return 'CURRENT DATA has %d numbered rows for %d pulses' % (rows, len(m.pulses))
+    # one numbered row per pulse that is not a junction pulse (those are the J lines of their owner's block: C09)
+    missing = [p for p in m.pulses if p.idx not in numbered]
+    for p in missing:
+        g0, g1 = p.geo
+        at_end = any(np.max(np.abs(np.array(p.point, dtype=float) - np.array(e, dtype=float))) <= 2.5e-3 * float(m.min_seglen)
+                     for g in (g0, g1) for e in g.endpoints)
+        if g0 is g1 and not at_end:
+            return 'CURRENT DATA has no row for pulse %d (an interior pulse of object %d)' % (p.idx + 1, g0.tag)
+    if len(numbered) != rows:
+        return 'CURRENT DATA lists a pulse twice: %d numbered rows, %d distinct pulses' % (rows, len(numbered))
     return None
+
+
+def rerender_property(m, rng):
+    """the report is a function of the model as it is now: after a first rendering (i) an already registered load is
+    attached to a further pulse, (ii) a new load and a new source are registered; after each step the model is solved
+    again and the report rendered again must list exactly the loads, sources and currents the model now has"""
+    import c19report
+    from mininec.mininec import Impedance_Load, Excitation
+    m.as_mininec(options=set())
+    N = len(m.pulses)
+    lumped = [l for l in m.loads if type(l).__name__ in ('Impedance_Load', 'Laplace_Load', 'Series_RLC_Load', 'Trap_Load')]
+
+    def judge(step):
+        try:
+            m.compute()
+        except Exception:
+            return None
+        txt = m.as_mininec(options=set())
+        try:
+            bads = c19report.report_bad(txt, m)
+        except Exception as e:
+            return 'after %s the report cannot be read back: %s: %s' % (step, type(e).__name__, e)
+        bads = [b for b in bads if b[0] != 'vm-table-precision']
+        if bads:
+            return 'after %s: %s: %s' % ((step,) + bads[0])
+        return None
+    try:
+        if not lumped:
+            ld = Impedance_Load(complex(rng.uniform(1, 100), rng.uniform(-50, 50)))
+            m.register_load(ld, rng.randrange(N))
+            lumped = [ld]
+            bad = judge('registering a first load')
+            if bad:
+                return bad
+        m.register_load(rng.choice(lumped), rng.randrange(N))
+    except Exception:
+        return None
+    bad = judge('attaching an already registered load to a further pulse')
+    if bad:
+        return bad
+    try:
+        m.register_load(Impedance_Load(complex(25, 5)), rng.randrange(N))
+        free = [k for k in range(N) if k not in [s.idx for s in m.sources]]
+        if free:
+            m.register_source(Excitation(complex(0.5, 0.25)), rng.choice(free))
+    except Exception:
+        return None
+    return judge('registering a further load and a further source')
 
 
 def gen_report_argv(rng):
@@ -204,6 +282,47 @@ def run(ck):
         ck.case(('report', tuple(argv)), True, sample=dict(kind='report', argv=argv) if len(ck.cov['samples']) < 4 else None)
         if bad:
             rep_bad.append(dict(kind='report', argv=argv, observed=bad))
+    # complete reports of `main` for command lines with every option kind: every number and the row structure of
+    # every block (c19report); then the same object rendered again after further loads / sources were registered
+    import c19report, cmdgen, collections
+    nfull = 30 if ck.tier == 'quick' else 400
+    sites = collections.Counter()
+    vm_examples = []
+    for i in range(nfull):
+        argv, meta = cmdgen.gen_cmdline(rng)
+        if rng.random() < 0.5:
+            argv += ['--option=far-field-absolute', '--ff-distance=%g' % rng.choice([1, 100, 2500.5]), '--option=far-field']
+            if rng.random() < 0.5:
+                argv += ['--ff-power=%g' % rng.choice([1, 100, 0.25])]
+        if rng.random() < 0.4:
+            argv += ['--near-field=%g,%g,%g,0.5,0.25,1,2,1,2' % (rng.uniform(50, 60), rng.uniform(40, 50), rng.uniform(30, 60)),
+                     '--option=near-field']
+        txt, m, kind = c19report.run_report(argv)
+        ck.count('full_report_' + kind)
+        if txt is None:
+            continue
+        ck.case(('full-report', tuple(argv)), True)
+        try:
+            bads = c19report.report_bad(txt, m)
+        except Exception as e:
+            bads = [('structure', 'the report cannot be read back: %s: %s' % (type(e).__name__, e))]
+        for site, msg in bads:
+            sites[site] += 1
+            if site == 'vm-table-precision':
+                if len(vm_examples) < 1:
+                    vm_examples.append(msg)
+                continue
+            rep_bad.append(dict(kind='full-report', argv=argv, observed='%s: %s' % (site, msg)))
+        # render again after the model has grown
+        if i % 3 == 0 and len(m.pulses) >= 3:
+            bad = rerender_property(m, rng)
+            ck.count('rerender_cases')
+            if bad:
+                rep_bad.append(dict(kind='rerender', argv=argv, observed=bad))
+    ck.stats['report_sites_flagged'] = dict(sites)
+    if vm_examples:
+        ck.report_known('vm-table-four-digits', 'vm-table-four-digits: the V/m far-field table prints four significant digits and two '
+                        'decimals (%d fields beyond 5e-6 this run, e.g. %s)' % (sites['vm-table-precision'], vm_examples[0]))
     ck.stats['disagreements'] = len(disagreements)
     ck.stats['report_cases'] = nrep + len(corpus)
     ck.cov['rule'] = ('format_float vs Lean formatFloat on finite doubles 1e-30..1e12 of both signs (powers of ten and their '
